@@ -9,7 +9,7 @@ def run(run, harness, replay=None):
         "WellFormedBristol and function equality on every small SSA circuit; spec->impl: each enumerated circuit goes through the real exporter and importer; "
         "impl->spec: the written file (parsed row by row) and the re-imported circuit are judged by Trace_Bristol.tla (counts, every wire assigned once and "
         "before use, outputs last in order, EvalBristol = SSA eval on all inputs, re-import equal), also for compiled corpus programs; importer totality: TLC "
-        "enumerates the edit space of a Bristol text (token substitutions incl. 2^31, 2^64-1, 2^64, -1, non-numbers, unknown gates; field/line insert, drop, "
+        "enumerates the edit space of a Bristol text (token substitutions incl. 2^31, 2^64-1, 2^64, -1, non-numbers, unknown gates, and the boundary values W-1, W, W+1, G, G+1 relative to the declared wire and gate counts of the file; field/line insert, drop, "
         "duplicate, swap, truncate) applied to three base exports. Non-trivial = exportable circuits with at least one repeated or constant-like output gate."
     )
     events, edits_res = [], []
